@@ -13,6 +13,10 @@ pub enum SOp {
     Push(MSpec),
     ParsePush(String),
     Pop,
+    /// another Logger with this specification is started with Logger::start() although a global
+    /// logger is installed already (the worker's switchboard): start() returns an error and must
+    /// leave the running logger and the facade's max level as they are
+    FailedStart(MSpec),
 }
 
 #[derive(Clone, Debug, Serialize, Deserialize)]
@@ -33,6 +37,7 @@ fn op_strat() -> BoxedStrategy<SOp> {
         2 => wellformed_string().prop_map(|(t, _)| SOp::ParsePush(t)),
         3 => malformed_string().prop_map(SOp::ParsePush),
         6 => Just(SOp::Pop),
+        1 => mspec_strat().prop_map(SOp::FailedStart),
     ]
     .boxed()
 }
@@ -128,6 +133,22 @@ impl Property for P {
                         active = rp.spec;
                     } else if !stack.is_empty() {
                         malformed_inside = true;
+                    }
+                }
+                SOp::FailedStart(sp) => {
+                    desc = format!("a second Logger::start() with {} (fails: a global logger is installed)", sp.render());
+                    let (w, _r) = Recorder::new(5);
+                    match flexi_logger::Logger::with(sp.build_with_builder())
+                        .log_to_writer(Box::new(w))
+                        .error_channel(flexi_logger::ErrorChannel::DevNull)
+                        .panic_if_error_channel_is_broken(false)
+                        .start()
+                    {
+                        Err(_) => {}
+                        Ok(_) => {
+                            out.set_fail("harness-no-global-logger", "Logger::start() succeeded: the worker's switchboard logger is not installed");
+                            break;
+                        }
                     }
                 }
                 SOp::Pop => {
